@@ -429,7 +429,7 @@ fn judge(o: &mut Outcome, s: &Script, r: &ScriptOut) {
         o.violation(sig, format!("query {}: {v}", s.qid), replay.clone());
     }
     for v in &r.protocol_violations {
-        o.violation("c07:protocol-violation-seen-by-node", v.clone(), replay.clone());
+        o.node_violation("c07", &v, replay.clone());
     }
     // delivered rows: a prefix of the script's concatenation, each once, in order
     if r.delivered.len() > all.len() || r.delivered[..] != all[..r.delivered.len()] {
@@ -498,7 +498,7 @@ async fn control_connection_pager(o: &mut Outcome, n_keyspaces: usize) {
         }
     }
     for v in cluster.log().violations() {
-        o.violation("c07:protocol-violation-seen-by-node", v, json!({}));
+        o.node_violation("c07", &v, json!({}));
     }
     cluster.shutdown();
 }
